@@ -173,7 +173,9 @@ fn gen_limits(rng: &mut Rng) -> (Vec<hk::HookGlyph>, &'static str) {
             if pick == 0 {
                 hk::HookGlyph::Empty
             } else {
-                let nc = rng.range(1, 4) as usize;
+                // a simple glyph cannot hold more than 65535 points (endPtsOfContours is u16):
+                // at most three contours of at most 21845 points in the large class
+                let nc = if big { rng.range(1, 3) } else { rng.range(1, 4) } as usize;
                 let contours = (0..nc)
                     .map(|_| if big { *rng.pick(&[700usize, 4369, 13107, 21845, 1, 257]) } else { rng.range(1, 30) as usize })
                     .collect();
@@ -1053,14 +1055,27 @@ fn check_font(f: &DFont, ranges: &[(u32, u32, u32)]) -> FontVerdict {
 // whole-font Gallina term
 // ---------------------------------------------------------------------------------------------
 fn coq_dfont(f: &DFont) -> String {
-    let glyphs = coq_list(&f.glyphs.iter().zip(f.hmtx.iter()).collect::<Vec<_>>(), |(g, (adv, lsb))| {
+    // the model looks at the points of a simple glyph only when a composite refers to it;
+    // the points of the others are left out of the term to keep it small
+    let mut referenced = vec![false; f.glyphs.len()];
+    for g in &f.glyphs {
+        if let DBody::Composite { comps, .. } = g {
+            for c in comps {
+                if let Some(r) = referenced.get_mut(c.gid as usize) {
+                    *r = true;
+                }
+            }
+        }
+    }
+    let indexed: Vec<(usize, &DBody, &(u16, i16))> = f.glyphs.iter().zip(f.hmtx.iter()).enumerate().map(|(i, (g, m))| (i, g, m)).collect();
+    let glyphs = coq_list(&indexed, |(i, g, (adv, lsb))| {
         let body = match g {
             DBody::Empty => "DEmpty".to_string(),
             DBody::Simple { bbox, contours, pts } => format!(
                 "(DSimple {} {} {})",
                 coq_bbox(bbox),
                 coq_list(contours, |c| cn(*c as u64)),
-                coq_list(pts, |(x, y)| format!("({}, {})", cz(*x as i64), cz(*y as i64)))
+                if referenced[*i] { coq_list(pts, |(x, y)| format!("({}, {})", cz(*x as i64), cz(*y as i64))) } else { "[]".to_string() }
             ),
             DBody::Composite { bbox, comps } => format!(
                 "(DComposite {} {})",
@@ -1155,6 +1170,7 @@ fn gen_font(rng: &mut Rng, idx: usize) -> GenFont {
         7 => "layout",
         8 => "vertical",
         9 => "negative-bearings",
+        10 => "variable",
         _ => "mixed",
     };
     let n = match class {
@@ -1320,7 +1336,34 @@ fn gen_font(rng: &mut Rng, idx: usize) -> GenFont {
             });
         }
     }
+    if class == 10 || rng.chance(1, 10) {
+        // a second master: same structure, other coordinates; the summaries describe the default master
+        design.axes = vec![vh::srcgen::AxisSrc { name: "Weight".into(), tag: "wght".into(), min: 400.0, default: 400.0, max: 700.0, map: vec![], hidden: false }];
+        design.masters[0].location = vec![("Weight".into(), 400.0)];
+        let mut bold = design.masters[0].clone();
+        bold.name = "Bold".into();
+        bold.style = "Bold".into();
+        bold.location = vec![("Weight".into(), 700.0)];
+        bold.features = None;
+        for g in bold.glyphs.iter_mut() {
+            if g.advance > 0.0 {
+                g.advance += rng.range(0, 80) as f64;
+            }
+            let grow = rng.range(0, 60) as f64;
+            for c in g.contours.iter_mut() {
+                for p in c.iter_mut() {
+                    p.0 = p.0 * 1.125 - grow;
+                    p.1 = p.1 * 1.0625;
+                }
+            }
+            for c in g.components.iter_mut() {
+                c.1[4] += grow;
+            }
+        }
+        design.masters.push(bold);
+    }
     let summary = json!({
+        "variable": design.masters.len() > 1,
         "glyphs": design.masters[0].glyphs.iter().map(|g| json!({
             "name": g.name, "advance": g.advance, "height": g.height, "unicodes": g.unicodes,
             "contours": g.contours.iter().map(|c| c.iter().map(|p| (p.0, p.1)).collect::<Vec<_>>()).collect::<Vec<_>>(),
@@ -1346,6 +1389,25 @@ fn overflow_font() -> GenFont {
     }
     let design = Design::single("C17Overflow", vec![a.uni(0x61), b.uni(0x62)]);
     GenFont { design, kind: "composite-over-65535-points", summary: json!({"a": "175 rectangles = 700 points", "b": "100 components of a = 70000 points"}) }
+}
+
+/// A glyf table larger than 128 KiB, so that loca has to use the long format.
+fn long_loca_font() -> GenFont {
+    let mut glyphs = Vec::new();
+    for i in 0..110 {
+        let mut g = GlyphSrc::new(&format!("big{}", i), 1000.0);
+        for k in 0..200 {
+            let x = (k % 20) as f64 * 70.0 + (i % 7) as f64;
+            let y = (k / 20) as f64 * 70.0;
+            g = g.rect(x, y, x + 50.0, y + 50.0);
+        }
+        if i == 0 {
+            g = g.uni(0x42);
+        }
+        glyphs.push(g);
+    }
+    let design = Design::single("C17Long", glyphs);
+    GenFont { design, kind: "glyf-over-128k", summary: json!({"glyphs": 110, "contours_each": 200}) }
 }
 
 /// Mean advance a hair below a rounding tie, where an f32 division cannot tell it from the tie:
@@ -1404,6 +1466,69 @@ fn main() {
         id += 1;
     }
 
+    // ---- C: whole fonts
+    let mut compiled = 0usize;
+    let mut errors = 0usize;
+    let mut glyph_total = 0usize;
+    let mut composite_total = 0usize;
+    let mut long_loca = 0usize;
+    let mut vertical = 0usize;
+    let mut with_layout = 0usize;
+    let mut depth_hist: BTreeMap<String, usize> = BTreeMap::new();
+    if want("fonts") {
+        let mut fonts: Vec<GenFont> = Vec::new();
+        for i in 0..nfonts {
+            fonts.push(gen_font(&mut rng, i));
+        }
+        // the fixed fonts come first in the output so that the violation shown for a key is the
+        // documented input; they draw nothing from the PRNG
+        let fixed = vec![overflow_font(), f32_tie_font(), long_loca_font()];
+        for (i, gf) in fixed.into_iter().chain(fonts.into_iter()).enumerate() {
+            *dist.entry(format!("font/{}", gf.kind)).or_default() += 1;
+            let dir = scratch_dir("c17");
+            let path = gf.design.write(dir.path());
+            let ctx = json!({"font_index": i, "kind": gf.kind, "source": gf.summary});
+            match compile_path(&path, None, None) {
+                Outcome::Panic(m) => emit_violation("compile-panic", format!("fontc panicked: {}", m), ctx),
+                Outcome::Error(m) => {
+                    if m.contains("attempt to add with overflow") && gf.kind == "composite-over-65535-points" {
+                        emit_violation(
+                            "maxp-composite-total-over-u16",
+                            format!("a glyph made of 100 components of a 700-point glyph (70000 points) does not compile in a debug build: {} (release build: exit 0 with maxCompositePoints = 70000 mod 65536 = 4464)", m),
+                            ctx,
+                        );
+                    } else {
+                        errors += 1;
+                        emit_violation("compile-error-on-valid-source", format!("fontc rejected a generated source: {}", m), ctx);
+                    }
+                }
+                Outcome::Font(bytes) => {
+                    compiled += 1;
+                    match decode_font(&bytes) {
+                        Err(e) => emit_violation("font-does-not-decode", e, ctx),
+                        Ok(f) => {
+                            glyph_total += f.glyphs.len();
+                            composite_total += f.glyphs.iter().filter(|g| matches!(g, DBody::Composite { .. })).count();
+                            long_loca += (f.loc_format != 0) as usize;
+                            vertical += f.vert.is_some() as usize;
+                            with_layout += (!f.lookups.is_empty()) as usize;
+                            *depth_hist.entry(format!("depth{}", f.maxp[5])).or_default() += 1;
+                            let v = check_font(&f, &ranges);
+                            for (k, d) in &v.fails {
+                                emit_violation(k, d.clone(), ctx.clone());
+                            }
+                            let model = coq_dfont(&f);
+                            let coq = format!("check_font {}", model);
+                            let show = format!("check_font_report {}", model);
+                            let nontrivial = f.glyphs.iter().any(|g| !matches!(g, DBody::Empty));
+                            emit_case(id, &format!("font/{}", gf.kind), coq, Some(show), nontrivial, format!("f:{}", i), json!({"font_index": i, "glyphs": f.glyphs.len(), "predicate_failures": v.fails.iter().map(|x| x.0.clone()).collect::<Vec<_>>()}));
+                            id += 1;
+                        }
+                    }
+                }
+            }
+        }
+    }
     // ---- A: metrics builder
     if want("metrics") {
         for _ in 0..n {
@@ -1484,64 +1609,16 @@ fn main() {
         }
     }
 
-    // ---- C: whole fonts
-    let mut compiled = 0usize;
-    let mut errors = 0usize;
-    let mut glyph_total = 0usize;
-    let mut composite_total = 0usize;
-    if want("fonts") {
-        let mut fonts: Vec<GenFont> = vec![overflow_font(), f32_tie_font()];
-        for i in 0..nfonts {
-            fonts.push(gen_font(&mut rng, i));
-        }
-        for (i, gf) in fonts.into_iter().enumerate() {
-            *dist.entry(format!("font/{}", gf.kind)).or_default() += 1;
-            let dir = scratch_dir("c17");
-            let path = gf.design.write(dir.path());
-            let ctx = json!({"font_index": i, "kind": gf.kind, "source": gf.summary});
-            match compile_path(&path, None, None) {
-                Outcome::Panic(m) => emit_violation("compile-panic", format!("fontc panicked: {}", m), ctx),
-                Outcome::Error(m) => {
-                    if m.contains("attempt to add with overflow") && gf.kind == "composite-over-65535-points" {
-                        emit_violation(
-                            "maxp-composite-total-over-u16",
-                            format!("a glyph made of 100 components of a 700-point glyph (70000 points) does not compile in a debug build: {} (release build: exit 0 with maxCompositePoints = 70000 mod 65536 = 4464)", m),
-                            ctx,
-                        );
-                    } else {
-                        errors += 1;
-                        emit_violation("compile-error-on-valid-source", format!("fontc rejected a generated source: {}", m), ctx);
-                    }
-                }
-                Outcome::Font(bytes) => {
-                    compiled += 1;
-                    match decode_font(&bytes) {
-                        Err(e) => emit_violation("font-does-not-decode", e, ctx),
-                        Ok(f) => {
-                            glyph_total += f.glyphs.len();
-                            composite_total += f.glyphs.iter().filter(|g| matches!(g, DBody::Composite { .. })).count();
-                            let v = check_font(&f, &ranges);
-                            for (k, d) in &v.fails {
-                                emit_violation(k, d.clone(), ctx.clone());
-                            }
-                            let model = coq_dfont(&f);
-                            let coq = format!("check_font {}", model);
-                            let show = format!("check_font_report {}", model);
-                            let nontrivial = f.glyphs.iter().any(|g| !matches!(g, DBody::Empty));
-                            emit_case(id, &format!("font/{}", gf.kind), coq, Some(show), nontrivial, format!("f:{}", i), json!({"font_index": i, "glyphs": f.glyphs.len(), "predicate_failures": v.fails.iter().map(|x| x.0.clone()).collect::<Vec<_>>()}));
-                            id += 1;
-                        }
-                    }
-                }
-            }
-        }
-    }
     emit_stat(json!({
         "input_classes": dist,
         "fonts_compiled": compiled,
         "fonts_rejected": errors,
         "glyphs_in_compiled_fonts": glyph_total,
         "composites_in_compiled_fonts": composite_total,
+        "fonts_with_long_loca": long_loca,
+        "fonts_with_vhea": vertical,
+        "fonts_with_layout_lookups": with_layout,
+        "fonts_by_max_component_depth": depth_hist,
         "hook_overflow_cases": overflow_seen,
     }));
 }
